@@ -266,7 +266,7 @@ func c12Gen(c *core.Ctx, r *core.Rng, builtin map[string]miniSchema, policy stri
 					cp.SchemaURL = skind + "://schemas.test/" + sname
 				}
 			}
-			cp.Avail = core.Pick(r, []string{"ok", "ok", "ok", "ok", "404", "500", "transport-error", "truncated", "empty", "not-json"})
+			cp.Avail = core.Pick(r, []string{"ok", "ok", "ok", "ok", "404", "500", "transport-error", "truncated", "empty", "not-json", "redirect-ok", "redirect-loop"})
 			if allGood {
 				cp.Avail = "ok"
 			}
@@ -288,6 +288,9 @@ func c12Gen(c *core.Ctx, r *core.Rng, builtin map[string]miniSchema, policy stri
 				case "not-json", "truncated":
 					cp.Avail = "not-json"
 					p.Aux[rel] = schema.JSON()[:25]
+				case "redirect-ok":
+					cp.Avail = "ok"
+					p.Aux[rel] = schema.JSON()
 				default:
 					cp.Avail = "file-missing"
 				}
@@ -308,6 +311,13 @@ func c12Gen(c *core.Ctx, r *core.Rng, builtin map[string]miniSchema, policy stri
 					plan.HTTP[cp.SchemaURL] = []simrt.Response{{Kind: "ok", Body: ""}}
 				case "not-json":
 					plan.HTTP[cp.SchemaURL] = []simrt.Response{{Kind: "ok", Body: "<html>503 gateway</html>"}}
+				case "redirect-ok":
+					// the origin moved the schema: the client follows the redirect, the schema is retrievable
+					moved := strings.Replace(cp.SchemaURL, "://", "://moved.", 1)
+					plan.HTTP[cp.SchemaURL] = []simrt.Response{{Kind: "redirect", To: moved}}
+					plan.HTTP[moved] = []simrt.Response{{Kind: "ok", Body: body}}
+				case "redirect-loop":
+					plan.HTTP[cp.SchemaURL] = []simrt.Response{{Kind: "redirect", To: cp.SchemaURL}}
 				}
 			}
 			pc.Set("template", cp.TemplURL)
@@ -505,7 +515,7 @@ func c12Gen(c *core.Ctx, r *core.Rng, builtin map[string]miniSchema, policy stri
 				conform = false
 			}
 		}
-		retrievable := cp.Avail == "ok" || cp.Avail == "embedded"
+		retrievable := cp.Avail == "ok" || cp.Avail == "embedded" || cp.Avail == "redirect-ok"
 		switch {
 		case !custom:
 			cp.Verdict, cp.Why = tern(conform, "accept", "reject"), "built-in template: validated against the built-in schema whatever require-template-schema-exists says"
@@ -697,7 +707,7 @@ func RunC12(c *core.Ctx) int {
 	cov := map[string]any{
 		"rule":               "one evaluation = one child run of the instrumented mockery on a generated world (1–3 packages; per package: template kind, schema location, schema availability incl. retrieval faults served by the simulated transport or the tree, require flag, template-data kind and placement) under one iteration policy; every world is run under asc, desc and random orders; non-trivial = some file must be rejected, or data sits at root level, or ≥2 packages; distinct = hash(tree digest, order-decision vector)",
 		"templates":          []string{"testify", "matryer", "file://", "http://", "https://"},
-		"schema_faults":      []string{"404", "500", "transport-error", "truncated", "empty", "not-json", "file-missing"},
+		"schema_faults":      []string{"404", "500", "transport-error", "truncated", "empty", "not-json", "file-missing", "redirect (followed)", "redirect loop"},
 		"data_kinds":         []string{"conforming", "empty", "missing-required", "extra-key", "wrong-type", "lower-level override with wrong type"},
 		"placements":         []string{"root", "package", "interface", "configs", "split across two levels"},
 		"open_combination":   "require=false ∧ schema retrievable ∧ non-conforming data is run and counted (open-case-exit:*), never judged",
